@@ -286,6 +286,17 @@ let run_case (f : string array) : string =
   | "rva" | "roa" | "raa" -> (try let d = unhex f.(1) in rres_str false (List.length d) (read_op (String.sub f.(0) 0 2) true d) with Too_deep -> "-")
   | "rvc" | "roc" | "rac" -> (try let d = unhex f.(1) in rres_str true (List.length d) (read_op (String.sub f.(0) 0 2) false d) with Too_deep -> "-")
   | "rhist" -> (try run_rhist f with Too_deep -> "-")
+  | "hint" ->
+    let rec nat_of_int n = if n <= 0 then O else S (nat_of_int (n - 1)) in
+    let rec int_of_nat = function O -> 0 | S k -> 1 + int_of_nat k in
+    let h = ref O in
+    let outs = ref [] in
+    for i = 1 to Array.length f - 1 do
+      let sizes = List.map (fun s -> nat_of_int (int_of_string s)) (String.split_on_char ',' f.(i)) in
+      h := remembered_prev !h sizes;
+      outs := Printf.sprintf "true_%d_%d" (int_of_nat !h) (List.length sizes) :: !outs
+    done;
+    String.concat " " (List.rev !outs)
   | "f64" ->
     (match x_ReadFloat64 (unhex f.(1)) with
      | ((b, p), None) -> Printf.sprintf "ok %s %s" (string_of_z b) (string_of_z p)
